@@ -1,6 +1,9 @@
 package main
 
-import "runtime"
+import (
+	"fmt"
+	"runtime"
+)
 
 // usesCallLog: the expression mentions the call log of the function it belongs to (called(F), ncalls(F), quantification
 // over calls(F)). Such a clause talks about calls made INSIDE the contracted function; at a call site it cannot be
@@ -26,7 +29,12 @@ func usesCallLog(x *Expr) bool {
 func (e *Engine) evalBoolNilGuard(env *Env, x *Expr) (t string, nilRead bool) {
 	defer func() {
 		if r := recover(); r != nil {
-			if _, ok := r.(*NilDeref); ok {
+			if nd, ok := r.(*NilDeref); ok {
+				if assumeSide[env.st] {
+					// at a call site the clause is an ASSUMPTION: the call rule turns the nil read into an obligation
+					// (the path must be infeasible) instead of silently assuming the guard away
+					panic(nd)
+				}
 				t, nilRead = "false", true
 				return
 			}
@@ -45,4 +53,44 @@ func solverProcs() int {
 		n = 2
 	}
 	return n
+}
+
+// assumeSide marks states whose contract clauses are currently evaluated as assumptions (call rule), not as goals.
+var assumeSide = map[*State]bool{}
+
+// checkAssumedClause: a callee clause that evaluates to a syntactically false consequent at the call site (e.g. the
+// identity of a fresh result pointer with an argument) would silently cut the path: report it instead.
+func checkAssumedClause(g, src, callee string) {
+	if g == "false" || (len(g) > 12 && g[:4] == "(=> " && g[len(g)-7:] == " false)") {
+		unsupported("clause of %s is false at the call site (its consequent cannot hold in the model; use `alias` for returned parameters): %s", callee, src)
+	}
+}
+
+// assumeClause evaluates a callee clause at a call site. A clause that reads through a nil pointer there means the
+// callee would dereference nil: the path must be infeasible (obligation), and is cut.
+func (e *Engine) assumeClause(st *State, env *Env, x *Expr, src, callee string, props []string) {
+	var g string
+	nilMsg := ""
+	func() {
+		defer func() {
+			delete(assumeSide, st)
+			if r := recover(); r != nil {
+				if nd, ok := r.(*NilDeref); ok {
+					nilMsg = nd.Msg
+					return
+				}
+				panic(r)
+			}
+		}()
+		assumeSide[st] = true
+		g = e.evalBool(env, x)
+	}()
+	if nilMsg != "" {
+		e.oblige(st, fmt.Sprintf("%s#call:%s.nonnil", e.curName, shortTarget(callee)), "requires@call", "false",
+			"a clause of "+callee+" reads through a nil pointer at this call ("+nilMsg+"): the path must be infeasible", props)
+		st.assume("false")
+		return
+	}
+	checkAssumedClause(g, src, callee)
+	st.assume(g)
 }
